@@ -645,6 +645,78 @@ fn case_fault_during_manual_compaction(out: &mut CaseOut, seed: u64, idx: u64) {
     out.sample = Some(json!({"family": "fault-during-manual-compaction", "ctx": ctx, "worker_parked_mid_merge": parked, "write_failed": failed_write, "request_withdrawn_while_parked": withdrawn}));
 }
 
+/// One long-lived iterator stepped back and forth (seeks, next, prev, direction changes) over a
+/// database with many small tables while single table reads fail transiently. A step whose error
+/// is visible through `status()` (or a seek that returns an error) promises nothing; every step
+/// after which `status()` is clean must be exactly at the reference cursor's position.
+fn case_iterator_faults(out: &mut CaseOut, seed: u64, idx: u64) {
+    use crate::props::c04::CursorChecker;
+    use raindb::ReadOptions;
+    let mut rng = Rng::new(mix(&[seed, idx], "c08-iter"));
+    let d = director();
+    d.reset(rng.next_u64());
+    let cfg = Config { memtable: *rng.pick(&[512usize, 1024]), file: *rng.pick(&[512u64, 1024]), block: *rng.pick(&[64usize, 256]), reuse: true };
+    let fs = SimFs::from_image(&dbutil::root_image());
+    let mut sess = Session::new(fs.clone(), cfg);
+    sess.fill_cache = false;
+    if let Err(e) = sess.open() {
+        out.violate("C08/open-failed-without-any-fault-fired", json!({"error": e}));
+        return;
+    }
+    let pool = gen::key_pool(&mut rng, KeyFamily::Ascii, 60);
+    let mut counter = 0u64;
+    for i in 0..rng.range(200, 400) {
+        let k = rng.pick(&pool).clone();
+        let r = if rng.chance(0.2) {
+            sess.delete(&k)
+        } else {
+            counter += 1;
+            sess.put(&k, &gen::tagged_value(&mut rng, &format!("v{counter}:"), 30))
+        };
+        if r.is_err() {
+            out.inconclusive("degenerate: load refused");
+            return;
+        }
+        if i % 90 == 89 {
+            let a = rng.pick(&pool).clone();
+            sess.compact(Some(&a), None);
+        }
+    }
+    sess.wait_quiescent(std::time::Duration::from_secs(10));
+    let files = sess.db().verif_files().len();
+    let it = match sess.db().new_iterator(ReadOptions { fill_cache: false, snapshot: None }) {
+        Ok(it) => it,
+        Err(e) => {
+            out.violate("C08/new-iterator-error-without-fault", json!({"error": e.to_string()}));
+            return;
+        }
+    };
+    let ctx = json!({"family": "iterator-under-transient-read-faults", "config": cfg.describe(), "table_files": files, "visible_entries": sess.model.len()});
+    let mut checker = CursorChecker::new(it, &sess.model);
+    checker.tolerate_reported_errors = true;
+    let mut fired = 0u64;
+    for _round in 0..40 {
+        let kind = if rng.chance(0.8) { OpKind::Read } else { OpKind::OpenRead };
+        fs.arm_fault(Some(Fault { kind, class: PathClass::Table, nth: rng.range(0, 10), mode: FaultMode::Transient, after_effect: false }));
+        let ok = checker.run(out, &mut rng, 14, &ctx, "C08/iterator-after-read-fault", &[]);
+        fired += (fs.fault_fired().0 > 0) as u64;
+        fs.arm_fault(None);
+        if !ok {
+            break;
+        }
+    }
+    out.add("iterator_fault_rounds_fired", fired);
+    out.add("iterator_errors_reported", checker.reported_errors);
+    out.add("iterator_steps_under_faults", checker.steps);
+    let reported = checker.reported_errors;
+    drop(checker);
+    sess.close();
+    if fired > 0 && files >= 3 {
+        out.nontrivial(format!("iterator-faults/files{}/reported{}", files.min(12), reported.min(9)));
+    }
+    out.sample = Some(json!({"family": "iterator-under-transient-read-faults", "ctx": ctx, "faults_fired": fired, "errors_reported_to_caller": reported}));
+}
+
 const GROUP_EVERY: u64 = 20;
 
 pub fn run_case(tier: &str, seed: u64, idx: u64) -> CaseOut {
@@ -652,10 +724,10 @@ pub fn run_case(tier: &str, seed: u64, idx: u64) -> CaseOut {
     // every 20th case is a group commit under a failing write-ahead log
     if idx % GROUP_EVERY == GROUP_EVERY - 1 {
         let j = idx / GROUP_EVERY;
-        if j % 3 == 2 {
-            case_fault_during_manual_compaction(&mut out, seed, j / 3);
-        } else {
-            case_group_fault(&mut out, seed, j);
+        match j % 4 {
+            2 => case_fault_during_manual_compaction(&mut out, seed, j / 4),
+            3 => case_iterator_faults(&mut out, seed, j / 4),
+            _ => case_group_fault(&mut out, seed, j),
         }
         return out;
     }
